@@ -30,9 +30,11 @@ from ..trace import mutter
 # or it won't consider the entry a directory.
 ZIP_DIRECTORY_BIT = 1 << 4
 FILE_PERMISSIONS = 0o644 << 16
+EXECUTABLE_FILE_PERMISSIONS = 0o755 << 16
 DIR_PERMISSIONS = 0o755 << 16
 
 _FILE_ATTR = stat.S_IFREG | FILE_PERMISSIONS
+_EXECUTABLE_FILE_ATTR = stat.S_IFREG | EXECUTABLE_FILE_PERMISSIONS
 _DIR_ATTR = stat.S_IFDIR | ZIP_DIRECTORY_BIT | DIR_PERMISSIONS
 
 
@@ -63,7 +65,10 @@ def zip_archive_generator(
                 if ie.kind == "file":
                     zinfo = zipfile.ZipInfo(filename=filename, date_time=date_time)
                     zinfo.compress_type = compression
-                    zinfo.external_attr = _FILE_ATTR
+                    if tree.is_executable(tp):
+                        zinfo.external_attr = _EXECUTABLE_FILE_ATTR
+                    else:
+                        zinfo.external_attr = _FILE_ATTR
                     content = tree.get_file_text(tp)
                     zipf.writestr(zinfo, content)
                 elif ie.kind in ("directory", "tree-reference"):
